@@ -10,4 +10,4 @@ Extraction "model.ml"
   checksum_zero xxh32_ref xzero xwrite xsum32_g mkx
   spec_decode spec_decode_x encode parse_block strict decode_portable decode_asm
   compress_fast_list compress_hc_list lz4block_CompressBlockBound
-  frame_spec new_writer run_writer wstep sink_bytes new_reader rstep run_reader new_creader cr_read parse_headers trace_ok cmd_compress cmd_compress_stdio cmd_uncompress.
+  frame_spec new_writer run_writer wstep sink_bytes new_reader rstep run_reader new_creader cr_read parse_headers trace_ok cmd_compress cmd_compress_stdio cmd_uncompress parse_desc.
